@@ -16,25 +16,65 @@ import (
 	"fmt"
 	"sort"
 	"strings"
+	"sync"
 
 	"pgregory.net/rapid"
 
 	"verifharness/internal/cfggen"
+	"verifharness/internal/core"
 )
 
 // scalePool: the threshold-adjacent counts.
 var scalePool = []int{63, 64, 65, 127, 128, 129, 255, 256, 257, 511, 512, 513, 999, 1000, 1001,
 	1023, 1024, 1025, 2047, 2048, 2049, 4095, 4096, 4097, 8191, 8192, 8193}
 
-// scaleShare: about one case in scaleShare is a scale case.
-const scaleShare = 40
+// About one case in scaleShareX is a scale case.  The library needs about 0.2 ms per
+// item for every parse / scan / format of a file and a case does about ten of them, so
+// a case of 1000 items costs as much as a few hundred ordinary cases.
+// The thorough tier's pools reach 8193 items (seconds per case): there (a) and (b) take
+// a sixth of the share, of 120 times as many cases (estimated +3 min wall on 16 cores).
+func scaleShareOf(quick, thorough int) int {
+	if core.Tier() == "thorough" {
+		return thorough
+	}
+	return quick
+}
 
-func genScaleCount(t *rapid.T, label string, max int) int {
+func scaleShareA() int { return scaleShareOf(100, 600) }
+func scaleShareB() int { return scaleShareOf(50, 300) }
+func scaleShareC() int { return scaleShareOf(100, 300) }
+
+// oneIn is true in about one case in n.  (rapid's integer ranges favour their bounds
+// and small values, a single IntRange(0, n-1) == 0 is true far more often than 1 in n;
+// small ranges are uniform, so the number is put together from base-4 digits.  All
+// digits zero - where shrinking goes - is "no".)
+func oneIn(t *rapid.T, label string, n int) bool {
+	v, span := 0, 1
+	for span < 2*n {
+		v = v*4 + rapid.IntRange(0, 3).Draw(t, label)
+		span *= 4
+	}
+	return v%n == n/2
+}
+
+// genScaleCount draws a threshold-adjacent count; the pool is cut at quick in the quick
+// tier and at thorough in the thorough tier.
+func genScaleCount(t *rapid.T, label string, quick, thorough int) int {
+	max := quick
+	if core.Tier() == "thorough" {
+		max = thorough
+	}
 	n := 0
 	for n < len(scalePool) && scalePool[n] <= max {
 		n++
 	}
-	return rapid.SampledFrom(scalePool[:n]).Draw(t, label)
+	// uniform over the pool (SampledFrom favours the first elements): base-4 digits
+	v, span := 0, 1
+	for span < 4*n {
+		v = v*4 + rapid.IntRange(0, 3).Draw(t, label)
+		span *= 4
+	}
+	return scalePool[v%n]
 }
 
 func scaleBucket(n int) string {
@@ -72,6 +112,38 @@ func sizeBucket(n int) string {
 		return "1-4MiB"
 	}
 	return "4MiB+"
+}
+
+// The driver's class histogram keeps the 60 most frequent labels of a sub-check; the
+// scale labels are rare by construction, so they are also counted here and written to
+// the evidence file as an extra (counts of the shard that reported last).
+var (
+	scaleMu   sync.Mutex
+	scaleSeen = map[string]map[string]int{}
+)
+
+func recordScale(sub string, labels []string) {
+	scaleMu.Lock()
+	defer scaleMu.Unlock()
+	m := scaleSeen[sub]
+	if m == nil {
+		m = map[string]int{}
+		scaleSeen[sub] = m
+	}
+	hit := false
+	for _, l := range labels {
+		if strings.HasPrefix(l, "scale:") {
+			m[l]++
+			hit = true
+		}
+	}
+	if hit {
+		cp := make(map[string]int, len(m))
+		for k, v := range m {
+			cp[k] = v
+		}
+		core.SetExtra("c20"+sub+"_scale_cases_of_one_shard", cp)
+	}
 }
 
 // Bulk is a run of N generated items (attributes, every BlockEvery-th one a block)
@@ -172,7 +244,7 @@ func aimedName(t *rapid.T, n int) int {
 	if n < 8 {
 		n = 8
 	}
-	switch rapid.IntRange(0, 6).Draw(t, "aim") {
+	switch rapid.IntRange(0, 7).Draw(t, "aim") {
 	case 0:
 		return rapid.IntRange(0, 1).Draw(t, "first")
 	case 1:
